@@ -207,6 +207,9 @@ func cmdCheck(args []string) int {
 			continue
 		}
 		if contractServes(c, id) {
+			if only := os.Getenv("GOVC_ONLY"); only != "" && !strings.Contains(c.Key, only) {
+				continue // development aid: the run is reported as partial below
+			}
 			units = append(units, c)
 		}
 	}
@@ -275,9 +278,77 @@ func cmdCheck(args []string) int {
 			}
 		}
 	}
+	// `only-writers KEY... : FN...`: only the listed functions contain an instruction that writes a heap
+	// array whose key contains one of the KEYs (K5, from the direct write-site scan)
+	for _, c := range units {
+		for _, cl := range c.get("only-writers") {
+			if !hasProp(cl.Props, id) {
+				continue
+			}
+			var keys []string
+			allowed := map[string]bool{}
+			seenSep := false
+			nfound := 0
+			for _, a := range cl.Args {
+				switch {
+				case a == ":":
+					seenSep = true
+				case seenSep:
+					allowed[a] = true
+				default:
+					keys = append(keys, a)
+				}
+			}
+			if allowed["none"] {
+				nfound++
+			}
+			if !seenSep || len(keys) == 0 {
+				rep.add(&OblResult{Name: c.Key + "#only-writers", Kind: "K5", Status: "failed", Text: "SPEC ERROR: only-writers KEY... : FN...", Props: cl.Props})
+				continue
+			}
+			for fn := range P.allFuncs {
+				if !inFalco(fn) || fn.Blocks == nil {
+					continue
+				}
+				d := P.directEffect(fn)
+				hit := ""
+				if d.All {
+					hit = "<anything>"
+				}
+				for k := range d.Keys {
+					for _, want := range keys {
+						if strings.Contains(k, want) {
+							hit = k
+						}
+					}
+				}
+				if hit == "<anything>" && (fn.Pkg == nil || fn.Pkg.Pkg.Path() != c.Pkg) {
+					hit = "" // an untyped store in another package cannot name this package's unexported fields
+				}
+				if hit == "" {
+					continue
+				}
+				nfound++
+				stt := "unsat"
+				if !allowed[fn.Name()] {
+					stt = "failed"
+				}
+				rep.add(&OblResult{Name: fmt.Sprintf("%s#only-writers:%s", strings.Join(keys, ","), shortFn(fn)), Kind: "K5", Status: stt, Backend: "write-site scan (no solver)",
+					Text: "only " + strings.Join(cl.Args, " ") + " (writes " + hit + ")", Props: cl.Props, Fn: shortFn(fn)})
+			}
+			if nfound == 0 {
+				rep.add(&OblResult{Name: strings.Join(keys, ",") + "#only-writers", Kind: "K5", Status: "failed", Text: "SPEC ERROR: no writer found at all (key misspelt?)", Props: cl.Props})
+			}
+		}
+	}
 	// property-specific analyses
 	for _, a := range analyses[id] {
 		a(P, rep, known, cfg)
+	}
+	if os.Getenv("GOVC_ONLY") != "" {
+		finishReport(P, rep, known, t0)
+		fmt.Println("PARTIAL RUN (GOVC_ONLY): not a verdict")
+		return 2
 	}
 	return finishReport(P, rep, known, t0)
 }
@@ -295,7 +366,13 @@ func runUnit(P *Program, rep *Report, c *Contract, fn *ssa.Function, id string, 
 			safe = true
 		}
 	}
+	tU := time.Now()
 	e := verifyFunction(P, fn, c, safe, []string{id})
+	if os.Getenv("GOVC_TIMES") != "" {
+		defer func() {
+			fmt.Fprintf(os.Stderr, "unit %-60s exec=%.1fs total=%.1fs paths=%d\n", shortFn(fn), e.secs, time.Since(tU).Seconds(), e.paths)
+		}()
+	}
 	rep.mu.Lock()
 	rep.Funcs = append(rep.Funcs, shortFn(fn))
 	for k := range e.usedExterns {
@@ -315,6 +392,9 @@ func runUnit(P *Program, rep *Report, c *Contract, fn *ssa.Function, id string, 
 	}
 	for _, n := range e.notes {
 		rep.Notes = append(rep.Notes, shortFn(fn)+": "+n)
+	}
+	if e.inductive != "" {
+		rep.Assume["contract of "+shortFn(fn)+" is NOT proved from its body: it is a reflexive, transitive two-state relation (both discharged) justified by induction over the call graph, whose remaining side conditions are the only-writers / callers scans (K5) of this property: "+e.inductive] = true
 	}
 	rep.mu.Unlock()
 	if e.aborted != "" {
@@ -337,7 +417,7 @@ func runUnit(P *Program, rep *Report, c *Contract, fn *ssa.Function, id string, 
 	// vacuity: every return statement of a function under an explicit contract must be reachable
 	// under the assumptions made on the way (contracts of callees, invariants); an unreachable return
 	// means contradictory assumptions and would make every obligation behind it pass trivially
-	if !c.FromTemplate {
+	if !c.FromTemplate && e.inductive == "" {
 		dead := e.coverReturns(cfg)
 		rep.mu.Lock()
 		rep.Covers += e.ncover
